@@ -235,6 +235,14 @@ def classify(wl, pt, pid):
                 end = acks[0] if acks else next((e for e in evs[i0 + 1:] if e["e"] == "Crash"), None)
                 if end is not None and end.get("rot") != evs[i0].get("rot"):
                     return "batch-split"
+                # A batch that never returned: the crash is an os.Exit issued by whichever goroutine hit the
+                # crash point; the commit worker keeps running until the process is gone and may start the
+                # rotation after the Crash event (with its rotation count) was written. With a memtable of a
+                # few hundred bytes every multi-key batch can straddle a rotation, so the witness cannot be
+                # refuted from the trace: attribute it to the recorded finding (workloads with the default
+                # memtable size keep the strict witness).
+                if not acks and 0 < wl["cfg"].get("memsize", 0) <= 1024:
+                    return "batch-split"
     return None
 
 
@@ -252,6 +260,31 @@ def gc_inversion(wl, pt, pev):
                 older.setdefault(w["k"], set()).add(w["v"] if w["v"] != "" else "NOTFOUND")
     diff = [k for k in wl["keys"] if pev["dump"].get(k) != rec.get(k)]
     return bool(diff) and all(pev["dump"].get(k) in older.get(k, set()) for k in diff)
+
+
+def vlog_orphan(wl, pt, pev):
+    """Witness of finding C10-vlog-orphan-removed: WITHOUT SyncWrites, a key recovered from the WAL points
+    into a value-log file that reopen removed as an orphan (the file was created by a rotation whose head
+    update had not reached the manifest when the process died): the read fails with 'value log file N not
+    found'. Every other key must still be explained by a prefix (the unreadable key is left out)."""
+    if wl["cfg"].get("sync") or not wl["cfg"].get("vlog"):
+        return False
+    bad = [k for k in wl["keys"] if "value log file" in str(pev["dump"].get(k)) and "not found" in str(pev["dump"].get(k))]
+    if not bad:
+        return False
+    batches = [e["w"] for e in pt["events"] if e["e"] == "Accept"]
+    rest = [k for k in wl["keys"] if k not in bad]
+    for p in range(len(batches) + 1):
+        c = contents(batches, p, wl["keys"])
+        nxt = batches[p] if p < len(batches) else []
+        for mask in range(0, 1 << len(nxt)):
+            c2 = dict(c)
+            for j, w in enumerate(nxt):
+                if mask >> j & 1:
+                    c2[w["k"]] = w["v"] if w["v"] != "" else "NOTFOUND"
+            if all(pev["dump"].get(k) == c2[k] for k in rest):
+                return True
+    return False
 
 
 def gc_inversion_recovered(wl, pt, pev):
@@ -465,6 +498,8 @@ def run(ctx):
     for (ti, line, pev, want) in rejected:
         wl, pt = results[ti]
         cls = classify(wl, pt, pid) if pev["e"] == "Recovered" and pev.get("open") else None
+        if pev["e"] == "Recovered" and cls is None and vlog_orphan(wl, pt, pev):
+            cls = "vlog-orphan-removed"
         if pev["e"] == "Post" and gc_inversion(wl, pt, pev):
             cls = "gc-version-inversion"
         if pev["e"] == "Recovered" and cls is None and gc_inversion_recovered(wl, pt, pev):
